@@ -79,7 +79,7 @@ impl MerkleTree {
     }
 
     pub fn get_paths(&self, mut index: usize) -> Vec<u8> {
-        let mut paths = Vec::with_capacity(self.levels.len() * self.algorithm.output_len());
+        let mut paths = Vec::with_capacity(self.levels.len() * self.hash_len());
         let mut level = 0;
 
         while !self.levels[level].is_empty() {
@@ -114,7 +114,8 @@ impl MerkleTree {
             }
 
             if node_count % 2 != 0 {
-                self.levels[level - 1].push(vec![0; self.algorithm.output_len()]);
+                let zero_node = vec![0; self.hash_len()];
+                self.levels[level - 1].push(zero_node);
                 node_count += 1;
             }
 
@@ -153,34 +154,36 @@ impl MerkleTree {
         self.hash(&[TREE_NODE_TWEAK, first, second])
     }
 
+    /// Width in bytes of every node of this tree: IETF truncates SHA-512 to its first 32 bytes
+    /// at each leaf and node (not only at the root), Google keeps all 64 bytes.
+    fn hash_len(&self) -> usize {
+        match self.version {
+            RfcDraft13 => 32,
+            Google => self.algorithm.output_len(),
+        }
+    }
+
     fn hash(&self, to_hash: &[&[u8]]) -> Data {
         let mut ctx = digest::Context::new(self.algorithm);
         for data in to_hash {
             ctx.update(data);
         }
-        Data::from(ctx.finish().as_ref())
+        Data::from(&ctx.finish().as_ref()[..self.hash_len()])
     }
 
     pub fn root_from_paths(&self, mut index: usize, data: &[u8], paths: &[u8]) -> Hash {
         let mut hash = self.hash_leaf(data);
 
-        assert_eq!(paths.len() % self.algorithm.output_len(), 0);
+        assert_eq!(paths.len() % self.hash_len(), 0);
 
-        for path in paths.chunks(self.algorithm.output_len()) {
-            let mut ctx = digest::Context::new(self.algorithm);
-            ctx.update(TREE_NODE_TWEAK);
-
-            if index & 1 == 0 {
+        for path in paths.chunks(self.hash_len()) {
+            hash = if index & 1 == 0 {
                 // Left
-                ctx.update(&hash);
-                ctx.update(path);
+                self.hash_nodes(&hash, path)
             } else {
                 // Right
-                ctx.update(path);
-                ctx.update(&hash);
-            }
-
-            hash = Hash::from(ctx.finish().as_ref());
+                self.hash_nodes(path, &hash)
+            };
             index >>= 1;
         }
 
